@@ -18,11 +18,35 @@ CLAIMED = {
             "replayed on the real object; random long histories over all known properties are validated "
             "step by step against the same specification by TLC.",
             "bounded: 3 keys, 3 values per configuration; histories sampled beyond that. msdparser reads str(obj) back."),
+    "C01": ("codec", "6/C01",
+            "TLC checks the serialize/tokenize/parse cycle of the Codec specification on every SM object reachable by edit "
+            "actions in bounded configurations (strict acceptance, parameter structure, round trip, stability, detection as "
+            "invariants); every such object is rebuilt and cycled through the real code and compared with the text, parameters "
+            "and object TLC computed; random edit histories on real objects (blank, corpus, empty; rich Unicode) are validated "
+            "record by record by TLC, which re-tokenizes the emitted text with its own MSD model.",
+            "bounded alphabets in the model; sampling beyond; msdparser is the trusted tokenizer (its model is bound to it in C03)."),
+    "C02": ("codec", "6/C02",
+            "As C01 for SSC: chart items in every order with deliberately equal / empty / identical-object values, NOTES or "
+            "NOTES2, nothing-dropped and SSCChart.from_str clauses; S2C builds each object with fresh and with shared string objects.",
+            "bounded alphabets in the model; sampling beyond; msdparser trusted."),
+    "C03": ("codec", "6/C03",
+            "MSD.tla (tokenizer model) is compared with msdparser on every text over 10 symbols up to the bound; MC_Load enumerates "
+            "every symbol text with strictness / entry-agreement / file-name invariants and each is loaded through 13+ real entry "
+            "points x strict; generated, corpus and mutated texts are loaded through all entry points and validated by TLC "
+            "(tokenizer model + parse rules + format rule).",
+            "ASCII/Latin-1 letter case only; texts ending in a lone backslash excluded; msdparser trusted and bound."),
+    "C04": ("codec", "6/C04",
+            "MC_Load's InvCycle (load, canonical save, load, save) on every bounded text; each loadable one is cycled through the "
+            "real code in both formats and compared with the object TLC expects; generated/corpus/truncated/spliced texts are "
+            "cycled for real and validated by TLC from the source text onwards.",
+            "escaping-gap values and SSC charts without note data excluded by spec predicates; long texts at parameter level."),
 }
 
 PENDING = {}
 
 ENGINES = [
+    ("codec", "spec/codec", ["C01", "C02", "C03", "C04"],
+     "MSD.tla (tokenizer model) + Codec.tla (parse rules, serialization relation, detection) + MC_Codec / MC_Load / MC_MSD (TLC BFS) + Trace_Codec (TLC trace validation)"),
     ("object", "spec/object", ["C18"], "Object.tla + MC_Object (TLC BFS) + Trace_Object (TLC trace validation)"),
 ]
 
